@@ -769,6 +769,9 @@ package raft
 //@ func persistentLog.AppendEntries
 //@   requires l.file != nil ==> logRI(l)
 //@   requires forall j int :: 0 <= j && j < len(entries) ==> entries[j] != nil
+//@   requires l.file != nil ==> forall j int :: 0 <= j && j < len(entries) ==> entries[j].Index == absLast(l) + 1 + j
+//@   requires l.file != nil ==> absLast(l) + len(entries) <= 18446744073709551615
+//@   ensures [ri] err == nil ==> logRI(l)
 //@   ensures [closed] old(l.file) == nil ==> err != nil && l.entries == old(l.entries)
 //@   ensures [appended] err == nil ==> len(l.entries) == old(len(l.entries)) + len(entries) && (forall k int :: 0 <= k && k < old(len(l.entries)) ==> l.entries[k] == old(l.entries[k])) && (forall j int :: 0 <= j && j < len(entries) ==> l.entries[old(len(l.entries)) + j] == entries[j])
 //@   ensures [error-frame] err != nil ==> l.entries == old(l.entries)
@@ -792,6 +795,7 @@ package raft
 //@   ensures [spec] err == nil ==> old(absContains(l, index)) && len(l.entries) == old(len(l.entries)) - (index - old(absFirst(l))) && forall k int :: 0 <= k && k < len(l.entries) ==> l.entries[k] == old(l.entries[k + (index - absFirst(l))])
 //@   ensures [missing] old(l.file) != nil && !old(absContains(l, index)) ==> err != nil
 //@   ensures [error-frame] err != nil ==> l.entries == old(l.entries)
+//@   ensures [ri] err == nil ==> logRI(l)
 //@   at call encodeLogEntry assert [offset-current] arg1.Offset == fPos[tmpFile] && arg0 == tmpFile
 //@   loop range newEntries invariant [tmp] tmpFile != nil
 
